@@ -124,16 +124,18 @@ func (f *c10Fix) helloInternal(c *hdClient, features []string) (string, string) 
 	return f.hello(c, h)
 }
 
-func (f *c10Fix) join(c *hdClient, room string, perms []string) {
+func (f *c10Fix) join(c *hdClient, room string, perms []string) string {
 	f.sys.backend.mu.Lock()
 	f.sys.backend.roomReply = hdRoomReply{Permissions: perms, HasPerm: perms != nil}
 	f.sys.backend.mu.Unlock()
 	f.seq++
-	m := f.request(c, fmt.Sprintf("fxjoin%d", f.seq), map[string]interface{}{"type": "room", "room": map[string]interface{}{"roomid": room, "sessionid": fmt.Sprintf("c10-rs-%d", f.seq)}})
+	rs := fmt.Sprintf("c10-rs-%d", f.seq)
+	m := f.request(c, fmt.Sprintf("fxjoin%d", f.seq), map[string]interface{}{"type": "room", "room": map[string]interface{}{"roomid": room, "sessionid": rs}})
 	if m == nil || m.Type != "room" {
 		f.t.Fatalf("C10 fixture: join answered with %+v", m)
 	}
 	c.take()
+	return rs
 }
 
 func (f *c10Fix) drop(c *hdClient) {
@@ -190,13 +192,25 @@ func (f *c10Fix) ensureOffline() {
 	}
 	c := f.newConn()
 	f.offPub, f.offPriv = f.helloV1(c, c10OffUser)
-	f.join(c, c10RoomId, nil)
+	rs := f.join(c, c10RoomId, nil)
 	f.sys.settle()
 	f.drop(c)
 	f.sys.settle()
 	f.offSid = f.sys.sidOf(f.offPub)
-	if sess := f.sys.hub.GetSessionByPublicId(f.offPub); sess == nil || sess.GetRoom() == nil || f.offSid == 0 {
+	// the backend says it is in the call (so that messages to the call reach it)
+	user := map[string]interface{}{"sessionId": rs, "inCall": 7}
+	body, _ := json.Marshal(map[string]interface{}{"type": "incall", "incall": map[string]interface{}{"incall": 7,
+		"changed": []interface{}{user}, "users": []interface{}{user}}})
+	if st := f.sys.roomApi(0, 0, c10RoomId, body); st != 200 {
+		f.t.Fatalf("C10 fixture: incall request answered with %d", st)
+	}
+	f.sys.settle()
+	sess := f.sys.hub.GetSessionByPublicId(f.offPub)
+	if sess == nil || sess.GetRoom() == nil || f.offSid == 0 {
 		f.t.Fatalf("C10 fixture: the session without connection was not kept")
+	}
+	if !sess.GetRoom().IsSessionInCall(sess) {
+		f.t.Fatalf("C10 fixture: the session without connection is not in the call")
 	}
 	if f.by != nil {
 		f.by.take()
